@@ -108,6 +108,24 @@ pub fn repair(toks: Vec<CTok>, sep: u8) -> Vec<CTok> {
         }
         out.push(t);
     }
+    // pairwise separation is not always enough ("MON" + "T" + "HH24" reads as "MONTH"...):
+    // verify every prefix and separate further where the reading diverges
+    let mut i = 1;
+    let mut guard = 0;
+    while i < out.len() && guard < 200 {
+        guard += 1;
+        let want: Vec<Tok> = out[..=i].iter().map(|x| x.0.clone()).collect();
+        if tokenize(&spell_all(&out[..=i])).as_ref() == Some(&want) || want.len() > MAX_TOKENS {
+            i += 1;
+            continue;
+        }
+        if out[i - 1].0 == Tok::T {
+            out[i - 1] = (Tok::Punct(sep), 0);
+        } else {
+            out.insert(i, (Tok::Punct(sep), 0));
+        }
+        i = i.saturating_sub(1).max(1);
+    }
     out
 }
 
